@@ -340,13 +340,14 @@ fn parse_multiplicative(input: &[Token]) -> ParseResult<'_> {
 
 fn parse_implicit_addition(input: &[Token]) -> ParseResult<'_> {
 	let (res, input) = parse_multiplicative(input)?;
+	// only a `number unit` term can start an implicit sum: looking ahead after
+	// anything else re-parsed the whole rest of the input for every term
+	if !matches!(res, Expr::ApplyMul(_, _)) {
+		return Ok((res, input));
+	}
 	if let Ok((rhs, remaining)) = parse_implicit_addition(input) {
 		// n i n i, n i i n i i, etc. (n: number literal, i: identifier)
-		if let (
-			Expr::ApplyMul(_, _),
-			Expr::ApplyMul(_, _) | Expr::Bop(Bop::ImplicitPlus, _, _) | Expr::Literal(_),
-		) = (&res, &rhs)
-		{
+		if let Expr::ApplyMul(_, _) | Expr::Bop(Bop::ImplicitPlus, _, _) | Expr::Literal(_) = &rhs {
 			return Ok((
 				Expr::Bop(Bop::ImplicitPlus, Box::new(res), Box::new(rhs)),
 				remaining,
